@@ -23,12 +23,12 @@
 extern "C" void __sanitizer_print_stack_trace();
 #endif
 static bool g_armed = false, g_sticky = false; static size_t g_trace = 0;   // NF_TRACE=<k>: print the stack of the injected failure when failing at k
+static size_t g_allocs = 0, g_fail_at = 0, g_failed = 0, g_failed_nothrow = 0;
 static void trace_failure() {
 #if HAVE_ASAN
   if (g_trace && g_trace == g_fail_at) { bool a = g_armed; g_armed = false; std::fprintf(stderr, "NF_TRACE injected failure at allocation\n"); __sanitizer_print_stack_trace(); g_armed = a; }
 #endif
 }
-static size_t g_allocs = 0, g_fail_at = 0, g_failed = 0, g_failed_nothrow = 0;
 
 static inline void* nf_alloc(std::size_t n) {
   if (g_armed) {
